@@ -561,7 +561,7 @@ pub fn run(tier: Tier, seed: u64, findings: &Findings) -> i32 {
     let check = C13;
     let mut report = super::run_regress(&check, &cfg, findings);
     exhaustive(&mut report, findings);
-    let cases = tier.pick(1500, 60_000);
+    let cases = tier.pick(6000, 200_000);
     report.merge(engine::run_generated(&check, &cfg, cases, 4, 16, findings, 0));
     engine::finish(
         Finish {
